@@ -62,6 +62,7 @@ type evalRenderer struct {
 	braceMin  bool     // omit braces where the grammar allows (dangling-else test)
 	faultExpr string   // expression used for a faulting slot
 	faultStmt string   // statement used for a "fault" statement
+	literal   bool     // for-in data written as literals (root selectors have no globals)
 }
 
 func newEvalRenderer() *evalRenderer {
@@ -94,6 +95,16 @@ func (r *evalRenderer) args(l []Node) string {
 	return strings.Join(parts, ", ")
 }
 
+// callExpr renders a call expression; an inline body (f = 0) becomes a function named after the path.
+func (r *evalRenderer) callExpr(e Node, p []int) string {
+	if nint(e, "f") == 0 {
+		name := "f_" + pathStr(p)
+		r.fns = append(r.fns, "function "+name+"() {\n"+r.stmt(nnode(e, "fb"), append(append([]int{}, p...), 1), 1)+"\n}")
+		return name + "()"
+	}
+	return fmt.Sprintf("fn%d(%s)", nint(e, "f"), r.args(nlist(e, "args")))
+}
+
 func endsWithOpenIf(s Node) bool {
 	switch nstr(s, "k") {
 	case "if":
@@ -124,6 +135,9 @@ func (r *evalRenderer) body(s Node, p []int, depth int, forceBrace bool) string 
 func (r *evalRenderer) cond(c string, p []int) string {
 	if c == "fault" {
 		return r.faultExpr
+	}
+	if c == "true" {
+		return "true"
 	}
 	return fmt.Sprintf("c(\"%s\")", pathStr(p))
 }
@@ -175,11 +189,11 @@ func (r *evalRenderer) stmt(s Node, p []int, depth int) string {
 	case "while":
 		return in + "while (" + r.cond(nstr(s, "c"), p) + ")" + r.body(nnode(s, "b"), append(append([]int{}, p...), 1), depth, false)
 	case "for":
-		init := fmt.Sprintf("t(\"i %s\")", ps)
+		init := fmt.Sprintf("printf(\"i %s\\n\")", ps)
 		if nstr(s, "init") == "fault" {
 			init = r.faultExpr
 		}
-		post := fmt.Sprintf("t(\"p %s\")", ps)
+		post := fmt.Sprintf("printf(\"p %s\\n\")", ps)
 		if nstr(s, "post") == "fault" {
 			post = r.faultExpr
 		}
@@ -194,6 +208,10 @@ func (r *evalRenderer) stmt(s Node, p []int, depth int) string {
 			iter = fmt.Sprintf("$$.%s%d", forInData[kind], n)
 		}
 		iter = strings.Replace(iter, "$$", "dat", 1)
+		if r.literal && n >= 0 {
+			iter = map[string]string{"a0": "[]", "a1": `["e0"]`, "a2": `["e0", "e1"]`, "o0": "{}", "o1": `{k0: "v0"}`, "o2": `{k0: "v0", k1: "v1"}`,
+				"s0": `""`, "s1": `"x"`, "s2": `"xy"`}[fmt.Sprintf("%s%d", forInData[kind], n)]
+		}
 		v1, v2 := "x"+ps, "y"+ps
 		head := v1
 		pr := fmt.Sprintf("print \"it %s\", %s", ps, v1)
@@ -215,9 +233,16 @@ func (r *evalRenderer) stmt(s Node, p []int, depth int) string {
 		e := nnode(s, "e")
 		switch nstr(e, "k") {
 		case "call":
-			return in + fmt.Sprintf("%s = fn%d(%s)", nstr(s, "n"), nint(e, "f"), r.args(nlist(e, "args")))
+			return in + nstr(s, "n") + " = " + r.callExpr(e, p)
 		case "match":
-			return in + fmt.Sprintf("%s = match (%s) { %s => %s }", nstr(s, "n"), r.atom(nnode(e, "subj")), nstr(e, "bind"), r.atom(nnode(e, "body")))
+			body := nnode(e, "body")
+			bs := ""
+			if nstr(body, "k") == "call" {
+				bs = r.callExpr(body, p)
+			} else {
+				bs = r.atom(body)
+			}
+			return in + fmt.Sprintf("%s = match (%s) { %s => %s }", nstr(s, "n"), r.atom(nnode(e, "subj")), nstr(e, "bind"), bs)
 		}
 		return in + nstr(s, "n") + " = " + r.atom(e)
 	case "matchstmt":
@@ -234,6 +259,7 @@ const forInDoc = `{"a0":[],"a1":["e0"],"a2":["e0","e1"],"o0":{},"o1":{"k0":"v0"}
 type evalProgram struct {
 	Text  string
 	Input string
+	Sels  []string
 }
 
 // renderEvalProgram renders prog = {fns, rules, n} with the oracle outcomes.
@@ -244,13 +270,31 @@ func (r *evalRenderer) renderEvalProgram(prog Node, conds []bool) evalProgram {
 		orc[i] = strconv.FormatBool(b)
 	}
 	var rules strings.Builder
+	sels := []string{}
 	for i, rl := range nlist(prog, "rules") {
 		kind := nstr(rl, "kind")
 		ri := i + 1
+		if kind == "SEL" {
+			// a root selector: the body runs inside a match block; the selector then yields $ itself
+			rs := newEvalRenderer()
+			rs.literal = true
+			rs.faultExpr, rs.faultStmt = r.faultExpr, r.faultStmt
+			body := rs.stmt(nnode(rl, "body"), []int{ri}, 1)
+			sels = append(sels, fmt.Sprintf("[match (1) { z0 => {\n  print \"rule\", \"SEL\", %d, 0\n%s\n} }, $][1]", ri, body))
+			continue
+		}
 		head := map[string]string{"B": "BEGIN", "BF": "BEGINFILE", "P": "", "EF": "ENDFILE", "E": "END"}[kind]
 		el := "0"
 		if kind == "P" {
 			el = "$index + 1"
+		}
+		if pat := nnode(rl, "pat"); pat != nil {
+			switch nstr(pat, "k") {
+			case "const":
+				head = strconv.FormatBool(nbool(pat, "v"))
+			case "call":
+				head = fmt.Sprintf("fn%d()", nint(pat, "f"))
+			}
 		}
 		rules.WriteString(head + " {\n")
 		rules.WriteString(fmt.Sprintf("  print \"rule\", \"%s\", %d, %s\n", kind, ri, el))
@@ -266,7 +310,6 @@ func (r *evalRenderer) renderEvalProgram(prog Node, conds []bool) evalProgram {
 		fns.WriteString(fmt.Sprintf("function fn%d(%s) {\n%s\n}\n", i+1, strings.Join(params, ", "), r.stmt(nnode(f, "body"), []int{100 + i + 1}, 1)))
 	}
 	sb.WriteString("function c(id) {\n  print \"c\", id\n  ci = ci + 1\n  return orc[ci - 1]\n}\n")
-	sb.WriteString("function t(l) {\n  print l\n  return 0\n}\n")
 	for _, f := range r.fns {
 		sb.WriteString(f + "\n")
 	}
@@ -278,7 +321,7 @@ func (r *evalRenderer) renderEvalProgram(prog Node, conds []bool) evalProgram {
 	for i := range elems {
 		elems[i] = strconv.Itoa(i)
 	}
-	return evalProgram{Text: sb.String(), Input: "[" + strings.Join(elems, ",") + "]"}
+	return evalProgram{Text: sb.String(), Input: "[" + strings.Join(elems, ",") + "]", Sels: sels}
 }
 
 // the for-in data as a jqawk object literal (single-quoted strings are fine)
@@ -311,8 +354,8 @@ func expectedLines(out []any, forins map[string]Node) []expLine {
 		}
 		dep := jnum(pair[1])
 		tag, _ := l[0].(string)
-		if tag == "c" || tag == "i" || tag == "p" {
-			dep++ // written inside the helper function c() / t()
+		if tag == "c" {
+			dep++ // written inside the helper function c()
 		}
 		before := len(lines)
 		switch tag {
@@ -398,6 +441,14 @@ func collectForIns(s Node, p []int, into map[string]Node) {
 	case "callstmt":
 		if nint(s, "f") == 0 {
 			collectForIns(nnode(s, "fb"), append(append([]int{}, p...), 1), into)
+		}
+	case "set":
+		e := nnode(s, "e")
+		if nstr(e, "k") == "match" {
+			e = nnode(e, "body")
+		}
+		if nstr(e, "k") == "call" && nint(e, "f") == 0 {
+			collectForIns(nnode(e, "fb"), append(append([]int{}, p...), 1), into)
 		}
 	}
 }
